@@ -110,7 +110,9 @@ def run(tier: str) -> int:
             for pi, part in enumerate(parts):
                 nproc += 1
                 spec = {"proc": nproc, "pool": {f: list(POOL[f]) for f in files}, "schedules": part,
-                        "trees": [[n, r, rng.randrange(1 << 30)] for (n, r) in trees for _ in range(b["orders"] if pi == 0 else 1)],
+                        # which tree a process scans first alternates: what an earlier tree brought along (its ignore file, its
+                        # configuration) must not reach the next one
+                        "trees": [[n, r, rng.randrange(1 << 30)] for (n, r) in (trees if nproc % 2 else trees[::-1]) for _ in range(b["orders"] if pi == 0 else 1)],
                         "alone": [["generated", str(gen)]] if pi == 0 else []}
                 inp, outp = wd / f"in_{nproc}.json", wd / f"out_{nproc}.ndjson"
                 inp.write_text(json.dumps(spec))
